@@ -123,7 +123,10 @@ fn consistent(ix: &TextIndex, loc: &Location, what: &str) -> Result<(), String> 
         return Err(format!("{what}: char range {off}+{len} lies outside the input ({} chars)", ix.chars.len()));
     }
     let (wl, wc, wb) = if off < ix.chars.len() { ix.chars[off] } else { (ix.end.0, ix.end.1, ix.total_bytes) };
-    if (l, c) != (wl, wc) {
+    // (a position at the very end of an input that does not end in a line break is reported by
+    // the parser as the start of the following line; both readings are accepted)
+    let at_eof_next_line = off == ix.chars.len() && (l, c) == (ix.end.0 + 1, 1);
+    if (l, c) != (wl, wc) && !at_eof_next_line {
         return Err(format!("{what}: reports {l}:{c} but its char offset {off} is at {wl}:{wc}"));
     }
     match sp.byte_offset() {
@@ -145,6 +148,14 @@ fn consistent(ix: &TextIndex, loc: &Location, what: &str) -> Result<(), String> 
         }
     }
     Ok(())
+}
+
+/// like `consistent`, but a location without byte information is accepted (scanner errors)
+fn consistent_opt_bytes(ix: &TextIndex, loc: &Location, what: &str) -> Result<(), String> {
+    match consistent(ix, loc, what) {
+        Err(m) if m.contains("byte offset missing") => Ok(()),
+        other => other,
+    }
 }
 
 // ---------------- pairing the span tree with the document AST ------------------------------------
@@ -260,14 +271,17 @@ impl<'a> Walk<'a> {
     }
 }
 
-const MERGE_DOCS: [(&str, &[(&str, (usize, usize))], (usize, usize), &[(&str, (usize, usize))]); 3] = [
+const MERGE_DOCS: [(&str, &[(&str, (usize, usize))], (usize, usize), &[(&str, (usize, usize))]); 5] = [
+    // merge chains: values that come from `b` through `m` are used at the `*m` token
+    ("base: &b\n  x: 1\nmid: &m\n  <<: *b\n  y: 2\nt:\n  <<: *m\n  z: 3\n", &[("x", (2, 6)), ("y", (5, 6))], (7, 7), &[("z", (8, 6))]),
+    ("# \u{4e2d}\nbase: &b {x: 1}\nmid: &m {<<: *b, y: 2}\nlow: &l {<<: *m, w: 4}\nt: {z: 3, <<: *l}\n", &[("x", (2, 14)), ("y", (3, 21)), ("w", (4, 21))], (5, 15), &[("z", (5, 8))]),
     ("base: &b\n  x: 1\n  y: 2\nt:\n  <<: *b\n  z: 3\n", &[("x", (2, 6)), ("y", (3, 6))], (5, 7), &[("z", (6, 6))]),
     ("# \u{e9}\u{4e2d}\r\nbase: &b {x: 1, y: 2}\r\nt:\r\n  z: 3\r\n  <<: *b\r\n", &[("x", (2, 14)), ("y", (2, 20))], (5, 7), &[("z", (4, 6))]),
     ("t:\n  <<: {x: 1, y: 2}\n  z: 3\n", &[], (2, 7), &[("z", (3, 6))]),
 ];
 
 fn check_case(c: &Case) -> Outcome {
-    if c.special > 0 {
+    if c.special > 0 && c.special < 100 {
         let (text, base, alias, own) = MERGE_DOCS[(c.special as usize - 1) % MERGE_DOCS.len()];
         let base: Vec<(String, (usize, usize))> = base.iter().map(|(k, p)| (k.to_string(), *p)).collect();
         let own: Vec<(String, (usize, usize))> = own.iter().map(|(k, p)| (k.to_string(), *p)).collect();
@@ -277,6 +291,27 @@ fn check_case(c: &Case) -> Outcome {
         };
     }
     let r = gdoc::render(&c.doc, &c.layout);
+    if c.special >= 100 {
+        // a stray token is inserted into the rendered text; whatever error comes back must carry
+        // a consistent location (byte information may be absent for scanner errors)
+        const STRAY: [&str; 10] = ["}", "]", ": :", "'", "\"", "\t- ", "*zz", "&", "{", "[ \u{e9}"];
+        let chars: Vec<char> = r.text.chars().collect();
+        let pos = c.bad_leaf.unwrap_or(0) % (chars.len() + 1);
+        let mut t: String = chars[..pos].iter().collect();
+        t.push_str(STRAY[(c.special as usize - 100) % STRAY.len()]);
+        t.extend(chars[pos..].iter());
+        let ix = index(&t);
+        return match serde_saphyr::from_str::<Spanned<Sp>>(&t) {
+            Ok(_) => Outcome::Pass,
+            Err(e) => match e.without_snippet().location() {
+                Some(l) => match consistent_opt_bytes(&ix, &l, "error location") {
+                    Ok(()) => Outcome::Pass,
+                    Err(m) => Outcome::Fail(format!("{m} (text {t:?})")),
+                },
+                None => Outcome::Pass,
+            },
+        };
+    }
     if gdoc::selfcheck_render(&c.doc, &c.layout, &r.text).is_err() {
         return Outcome::Discard("selfcheck-render");
     }
@@ -293,7 +328,7 @@ fn check_case(c: &Case) -> Outcome {
                 Err(e) => {
                     // every located error must at least be consistent
                     if let Some(l) = e.without_snippet().location() {
-                        if let Err(m) = consistent(&ix, &l, "error location") {
+                        if let Err(m) = consistent_opt_bytes(&ix, &l, "error location") {
                             return Outcome::Fail(format!("{m} (text {text:?})"));
                         }
                     }
@@ -492,6 +527,14 @@ impl Property for C16 {
         let strat = (gdoc::arb_tree(4, 24), prop::collection::vec(any::<u16>(), 8..40), prop::sample::select(vec![(0u16, 0u16), (25, 25), (35, 30)]), 0u32..(1 << 12))
             .prop_map(|(t, s, (a, al), lb)| Case { doc: gdoc::decorate(&t, &s, a, al, 0), layout: Layout::from_bits(lb), bad_leaf: None, special: 0 });
         ctx.run_strategy("spanned-tree", 1, ctx.tier.pick(60_000, 800_000), &strat, nontrivial);
+        // (1b) syntax errors: a stray token at a random position
+        let strat = (gdoc::arb_tree(3, 16), prop::collection::vec(any::<u16>(), 8..24), 0u32..(1 << 12), any::<u16>(), 0u8..10).prop_map(|(t, s, lb, pos, tok)| Case {
+            doc: gdoc::decorate(&t, &s, 20, 20, 0),
+            layout: Layout::from_bits(lb),
+            bad_leaf: Some(pos as usize),
+            special: 100 + tok,
+        });
+        ctx.run_strategy("syntax-error-locations", 3, ctx.tier.pick(40_000, 500_000), &strat, |c| c.layout.mb_prefix || c.layout.comments);
         // (2) integer trees: spanned + every leaf in turn as a type error
         let strat = (arb_int_tree(), prop::collection::vec(any::<u16>(), 8..40), prop::sample::select(vec![(0u16, 0u16), (25, 25)]), 0u32..(1 << 12), any::<u16>()).prop_map(|(t, s, (a, al), lb, pick)| {
             let doc = gdoc::decorate(&t, &s, a, al, 0);
